@@ -46,6 +46,7 @@ type Prefix struct {
 	Wid   int    `json:"wid"`
 	Batch int    `json:"batch"`
 	Count int    `json:"count"`
+	NW    int    `json:"nw,omitempty"` // worker count of the run that produced the prefix (C17's sweep index depends on it)
 }
 
 // Record is one line of worker output.
@@ -345,12 +346,13 @@ func coordinator(args []string) {
 	sites := fs.String("sites", "", "instrumenter report (site table)")
 	minBudget := fs.Int("minimise", 90, "seconds for minimisation")
 	fs.Parse(args)
+	os.Setenv("VERIF_NWORKERS", fmt.Sprint(*workers)) // inherited by workers, gencase and replay children
 	d := drivers[*prop]
 	if d == nil {
 		harnessFatal("unknown property %q", *prop)
 	}
 	start := time.Now()
-	deadline := start.Add(time.Duration(*budget) * time.Second)
+	deadline := time.Unix(start.Add(time.Duration(*budget)*time.Second).Unix(), 0) // whole seconds: workers receive it as a unix time
 	self, _ := os.Executable()
 
 	type agg struct {
@@ -459,7 +461,7 @@ func coordinator(args []string) {
 						}
 						rf := &ReplayFile{Case: cs, TZ: tzFor(d, tzs, w, b)}
 						if lastStart > 0 {
-							rf.Prefix = &Prefix{*seed, w, b, lastStart}
+							rf.Prefix = &Prefix{*seed, w, b, lastStart, *workers}
 						}
 						a.mu.Lock()
 						a.viols = append(a.viols, &Record{T: "viol", Wid: w, Batch: b,
